@@ -477,3 +477,9 @@ PROPS["C08"]["quick"].append({"engine": "Z", "prop": "C08"})
 PROPS["C08"]["thorough"].append({"engine": "Z", "prop": "C08"})
 META["C08"]["engine"] = "L+Z"
 PROPS["C08"]["assumptions"].append("engine Z adds four single real-thread executions of the compiled binary with a panicking thread (60 s cap): supplementary evidence, one schedule each; the verdict comes from the loom exploration")
+
+
+# C12, order independence at function level: every permutation of the entry lists
+PROPS["C12"]["quick"].append({"engine": "S", "bin": "c13", "args": ["perm"], "parts": 8})
+PROPS["C12"]["thorough"].append({"engine": "S", "bin": "c13", "args": ["perm"], "parts": 16, "timeout": 3000})
+META["C12"]["engine"] = "Z+S"
